@@ -9,7 +9,9 @@
 (* accepted iff the position after its last event is reached (positions are printed).  There    *)
 (* is no action for an exception and none for non-finite coefficients.                          *)
 (*   history: nord, S, pc (distinct positively weighted abscissae per position), maxfits,       *)
-(*            events: fit [mask (good knots before), st, after (good knots after), finite]      *)
+(*            events: fit [mask (good knots before), st, after (good knots after), finite,      *)
+(*                         illcond (measured: design matrix on the masked knots numerically    *)
+(*                         singular, condition number above 1e5)]                              *)
 (*                    return [mask, finite]     refuse []                                       *)
 (*                                                                                              *)
 (* Mode "records" (Trace_BSplineFit.cfg, INIT RInit / NEXT RNext): single observed calls and    *)
@@ -62,7 +64,8 @@ LawWhy(r) ==
   IN IF ~SupportOK(P) \/ ~(EndKnots(P) \subseteq mk /\ mk \subseteq AllKnots(P)) THEN "harness: bad support abstraction"
      ELSE IF r.exc # "" THEN "exception"
      ELSE IF r.bdisc > r.tol THEN "basis / value() inconsistent with the masked knot vector"
-     ELSE IF \E k \in 1..Len(r.st) : r.st[k] \notin cls.allowed THEN "status not admissible"
+     ELSE IF \E k \in 1..Len(r.st) : r.st[k] \notin cls.allowed /\ ~(~r.condok /\ r.st[k] \in {-1, -2})
+          THEN "status not admissible"
      ELSE IF ~r.finite THEN "non-finite coefficients"
      ELSE IF \E k \in 1..Len(r.st) : r.st[k] # 0 THEN ""
      ELSE IF ~cls.determined THEN ""                     \* status 0 on an undetermined system: nothing to compare
@@ -105,6 +108,7 @@ TFit == /\ Ev.a = "fit"
         /\ \/ Ev.st = 0 /\ FitOK /\ ToSet(Ev.after) = bkmask
            \/ Ev.st = -1 /\ FitDrop(ToSet(Ev.after))
            \/ Ev.st = -2 /\ FitFail /\ ToSet(Ev.after) = bkmask
+           \/ Ev.illcond /\ FitGiveUp(Ev.st, ToSet(Ev.after))
 TReturn == Ev.a = "return" /\ ToSet(Ev.mask) = bkmask /\ Ev.finite /\ Return
 TRefuse == Ev.a = "refuse" /\ Refuse
 TNext == /\ tid > 0 /\ pos <= Len(T.events)
